@@ -170,7 +170,8 @@ def extract(exp, name, attrs):
     regs = {}
     m = re.search(r'stats_registry\s*::\s*register\s*\(\s*"([^"]+)"', head)
     regs['stats_name'] = m.group(1) if m else None
-    m = re.search(r'InvalidationRegistry\s*::\s*global\s*\(\s*\)\s*\.\s*register\s*\(\s*"([^"]+)"', head)
+    # `InvalidationRegistry::global().register("name", ..)` or the same call through a local bound to the registry
+    m = re.search(r'\.\s*register\s*\(\s*"([^"]+)"', head)
     regs['inval_name'] = m.group(1) if m else None
     mm = re.search(r'InvalidationMetadata\s*::\s*new\s*\(', head)
     if mm:
